@@ -33,7 +33,26 @@ pub fn canonicalise(m: &mut GenMsg) -> Result<(), String> {
         match (field_ops(sp.ty).parse)(&f.content) {
             Ok(v) => {
                 if faithful(&f.content, &v).is_err() {
-                    return Err(f.tag.clone());
+                    // the library spells this value differently (field 25 always writes its slash):
+                    // that spelling is adopted when it is a fixed point carrying the same value
+                    let canon = split_swift(&v.swift).map(|x| x.1);
+                    let stable = canon.as_ref().and_then(|c| {
+                        (field_ops(sp.ty).parse)(c).ok().and_then(|v2| {
+                            let same_text = split_swift(&v2.swift).map(|x| x.1).as_ref() == Some(c);
+                            if same_text && v2.json == v.json {
+                                Some(c.clone())
+                            } else {
+                                None
+                            }
+                        })
+                    });
+                    match stable {
+                        Some(c) => {
+                            f.content = c;
+                            continue;
+                        }
+                        None => return Err(f.tag.clone()),
+                    }
                 }
                 if let Some((_, c)) = split_swift(&v.swift) {
                     f.content = c;
@@ -188,7 +207,7 @@ pub fn oracle(c: &MsgCase, obs: &mut Obs) -> Vec<Violation> {
         let cands: Vec<usize> = occ
             .iter()
             .enumerate()
-            .filter(|(i, (p, t, _))| {
+            .filter(|(i, (p, t, _, _))| {
                 !used[*i]
                     && *p == f.path
                     && (*t == f.tag || (t.len() == 2 && f.tag.starts_with(t.as_str())))
@@ -205,7 +224,14 @@ pub fn oracle(c: &MsgCase, obs: &mut Obs) -> Vec<Violation> {
         }
         // keys of one tag are not ordered in the JSON object (`34F_credit` sorts before `34F_debit`): any
         // unused occurrence exposing exactly these components will do
-        match cands
+        // elements of a JSON array (a repeated field) are taken in order: the first unused one must be
+        // this occurrence ("repeated fields appear in input order"); members of their own may match in any order
+        let pool: Vec<usize> = if occ[cands[0]].3 {
+            vec![cands[0]]
+        } else {
+            cands.clone()
+        };
+        match pool
             .iter()
             .find(|i| components_exposed(&f.comps, &occ[**i].2).is_ok())
         {
@@ -220,7 +246,7 @@ pub fn oracle(c: &MsgCase, obs: &mut Obs) -> Vec<Violation> {
             }
         }
     }
-    for (i, (p, t, v)) in occ.iter().enumerate() {
+    for (i, (p, t, v, _)) in occ.iter().enumerate() {
         if !used[i] {
             out.push(viol(
                 format!("C03|MT{}|extra|{}", mt, t),
